@@ -14,7 +14,9 @@ RULE = ("seeded directory trees (1-3 levels, 1-10 files, unique base names) asse
         "another vocabulary; the position and kind of the bad files is the fault sequence, the "
         "directory listing order (os.listdir / os.scandir seam) the schedule; one tool run per tree: "
         "odmlconvert, odmltordf (x -r x -o) or FormatConverter (x recursive x explicit/implicit "
-        "output x every target format but trix). distinct = distinct (tool, flags, multiset of file "
+        "output x every target format but trix), the input directory spelled plain / with trailing "
+        "separator / relative; a third of the odmlconvert runs are followed by odmltordf over their "
+        "result. distinct = distinct (tool, flags, multiset of file "
         "kinds per level, listing permutation class) tuples")
 COMPONENTS = {
     "real": ["odml.scripts.odml_convert", "odml.scripts.odml_to_rdf",
@@ -30,7 +32,7 @@ LEVEL_TEXT = ("Seeded exploration over directory trees mixing convertible and un
               "control. One tool runs in-process per tree; the whole sandbox is snapshotted before "
               "and after: inputs byte-identical, writes confined to the output location, every output "
               "loads (strict reader / rdflib) with the content of its source, the CLI tools survive "
-              "any mixture and produce an output for every convertible file.")
+              "any mixture, produce an output for every convertible file and none for an unconvertible one.")
 LEVEL_NOTE = ("1.0 sources are written by the harness' own templates and kept to the trivially mappable "
               "subset (one value element per Property); files carry no repository/include URLs (no "
               "network); FormatConverter promises no isolation: only inputs-untouched, "
